@@ -608,47 +608,134 @@ def split_laziness(rep, L):
                                       W_, tail, src.nones, src.samples, len(data) // 2),
                                   {"kind": "lazy", "tuple": [1, 2, 0, 0], "flags": tm.show(flags)})
     W = 2
+    from .chk_reader import blocks_of, consumed_after
+    import sys as _sys
+
+    class CountingStdin:
+        """sys.stdin stand-in whose .buffer counts the bytes every read call hands to the library (a read of n bytes
+        on a pipe blocks until n bytes have arrived, so bytes asked for and received are bytes waited for)."""
+
+        def __init__(self, data):
+            outer = self
+            self.samples = 0
+            self.nones = 0
+            bio = io.BytesIO(data)
+
+            class Buf:
+                raw = None
+
+                def _count(self, b):
+                    if b:
+                        outer.samples += len(b) // 2
+                    else:
+                        outer.nones += 1
+                    return b
+
+                def read(self, n=-1):
+                    return self._count(bio.read(n))
+
+                def read1(self, n=-1):
+                    return self._count(bio.read1(n))
+
+                def readinto(self, buf):
+                    k = bio.readinto(buf)
+                    self._count(bytes(k))
+                    return k
+
+                def fileno(self):
+                    raise io.UnsupportedOperation("fileno")
+
+                def readable(self):
+                    return True
+
+                def close(self):
+                    pass
+
+                closed = False
+
+            self.buffer = Buf()
+            self.buffer.raw = self.buffer
+
+        def fileno(self):
+            raise io.UnsupportedOperation("fileno")
+
+    validator = lib_["util"].AudioEnergyValidator(50, 2, 1)
+    kinds = ("src", "reader", "hop", "hop_tail", "rec_hop_tail", "stdin")
+    rep.cov["laziness_inputs"] = list(kinds)
     for (mn, mx, ms, mode) in [(1, 1, 0, 0), (1, 3, 0, 0), (2, 3, 1, 0), (1, 3, 2, 0), (2, 4, 1, 4), (1, 2, 1, 2), (3, 3, 0, 6),
                                (2, 5, 3, 4), (1, 4, 3, 0), (2, 2, 1, 0), (1, 5, 0, 4), (3, 5, 2, 2)]:
         for n in range(L + 1):
             for bits in range(1 << n):
-                flags = [bool((bits >> k) & 1) for k in range(n)]
-                data = coded(flags, W, 2, 1)
-                src = Counting(data, 20, 2, 1)
+              for kind in kinds:
+                if kind != "src" and n > L - 2:
+                    continue
+                wflags = [bool((bits >> k) & 1) for k in range(n)]
+                tail = 1 if kind.endswith("hop_tail") else 0
+                data = coded(wflags, W, 2, 1, tail, True)
+                total = len(data) // 2
+                B, H = (2 * W, W) if "hop" in kind else (W, W)
+                samples = [data[2 * i : 2 * i + 2] for i in range(total)]
+                blocks = blocks_of(samples, B, H)
+                flags = [bool(validator.is_valid(b)) for b in blocks] if "hop" in kind else wflags + ([True] if tail else [])
+                wd = 0.2 if "hop" in kind else 0.1  # for a reader input the window is its block duration
+                kw = dict(min_dur=mn * wd, max_dur=mx * wd, max_silence=ms * wd, drop_trailing_silence=bool(mode & 4),
+                          strict_min_dur=bool(mode & 2), energy_threshold=50)
                 rep.add("evaluations")
-                gen = lib_["core"].split(src, min_dur=mn * 0.1, max_dur=mx * 0.1, max_silence=ms * 0.1,
-                                         drop_trailing_silence=bool(mode & 4), strict_min_dur=bool(mode & 2),
-                                         analysis_window=0.1, energy_threshold=50)
-                exp = tm.segment(flags, mn, mx, ms, mode)
-                j = 0
-                msg = None
-                for r in gen:
-                    if j >= len(exp):
-                        msg = "more regions than the model"
-                        break
-                    s, e = exp[j]
-                    j += 1
-                    ln = e - s + 1
-                    if src.nones:
-                        continue  # yielded at end of stream
-                    if ln >= mx:
-                        limit = (e + 1) * W
+                old_stdin = _sys.stdin
+                try:
+                    if kind == "stdin":
+                        src = CountingStdin(data)
+                        _sys.stdin = src
+                        gen = lib_["core"].split("-", analysis_window=0.1, sampling_rate=20, sample_width=2, channels=1, **kw)
                     else:
-                        lv = e
-                        while lv >= s and not flags[lv]:
-                            lv -= 1
-                        limit = (lv + max(ms, 0) + 2) * W
-                    if src.samples > limit:
-                        msg = "region (%d,%d) yielded after %d samples were pulled; deciding window ends at sample %d" % (
-                            s, e, src.samples, limit)
-                        break
+                        src = Counting(data, 20, 2, 1)
+                        if kind == "src":
+                            inp = src
+                        elif kind == "reader":
+                            inp = lib_["util"].AudioReader(src, block_dur=0.1)
+                        else:
+                            inp = lib_["util"].AudioReader(src, block_dur=0.2, hop_dur=0.1, record=kind.startswith("rec"))
+                        gen = lib_["core"].split(inp, analysis_window=0.1, **kw)
+                    exp = tm.segment(flags, mn, mx, ms, mode)
+                    j = 0
+                    msg = None
+                    for r in gen:
+                        if j >= len(exp):
+                            msg = "more regions than the model"
+                            break
+                        s, e = exp[j]
+                        j += 1
+                        ln = e - s + 1
+                        if ln >= mx:
+                            dec = e
+                        else:
+                            lv = e
+                            while lv >= s and not flags[lv]:
+                                lv -= 1
+                            dec = lv + max(ms, 0) + 1
+                        if dec >= len(flags):
+                            continue  # decided by the end of the stream
+                        limit = consumed_after(dec + 1, total, B, H)
+                        if src.samples > limit:
+                            msg = "region (%d,%d) yielded after %d samples were pulled; deciding window ends at sample %d" % (
+                                s, e, src.samples, limit)
+                            break
+                        if src.nones:
+                            msg = ("region (%d,%d) is decided by window %d, yet the input was asked for more (%d request(s) answered "
+                                   "by end of stream) before it was yielded" % (s, e, dec, src.nones))
+                            break
+                    if msg is None and j != len(exp):
+                        msg = "%d regions, the model has %d" % (j, len(exp))
+                finally:
+                    _sys.stdin = old_stdin
                 if msg is None and src.nones != 1:
-                    msg = "end of stream requested %d times from the audio source" % src.nones
+                    msg = "end of stream requested %d times from the input" % src.nones
                 if exp:
                     rep.add("distinct_nontrivial")
                 if msg:
-                    rep.violation("split-lazy tuple=%d,%d,%d,%d pattern=%s" % (mn, mx, ms, mode, tm.show(flags)), msg,
-                                  {"kind": "lazy", "tuple": [mn, mx, ms, mode], "flags": tm.show(flags)})
+                    rep.violation("split-lazy input=%s tuple=%d,%d,%d,%d pattern=%s" % (kind, mn, mx, ms, mode, tm.show(wflags)),
+                                  "input %s: %s" % (kind, msg),
+                                  {"kind": "lazy", "tuple": [mn, mx, ms, mode], "flags": tm.show(wflags)})
 
 
 # ---------------------------------------------------------------------------
@@ -688,6 +775,13 @@ def c09_work(task):
     for f in (rawf, oddf):
         with open(f, "wb") as fp:
             fp.write(data)
+    # the same files under names as cameras and recorders write them (upper / mixed case, "wave")
+    import shutil as _sh
+
+    wavU, wavM, rawU = os.path.join(d, "REC001.WAV"), os.path.join(d, "take.2.Wave"), os.path.join(d, "DUMP.RAW")
+    _sh.copyfile(wavf, wavU)
+    _sh.copyfile(wavf, wavM)
+    _sh.copyfile(rawf, rawU)
     ap = dict(sampling_rate=rate, sample_width=sw, channels=ch)
     eth = eth_for(sw)
     bps_ = sw * ch
@@ -716,6 +810,10 @@ def c09_work(task):
                     return core.split(Path(wavf), **base_kw, **long_kw)
                 if kind == "wav_lazy":
                     return core.split(wavf, large_file=True, **base_kw, **long_kw)
+                if kind in ("WAV", "WAV_lazy", "Wave"):
+                    return core.split(wavM if kind == "Wave" else wavU, large_file=kind.endswith("lazy"), **base_kw, **long_kw)
+                if kind in ("RAW", "RAW_lazy"):
+                    return core.split(rawU, large_file=kind.endswith("lazy"), **base_kw, **long_kw, **ap)
                 if kind == "raw":
                     return core.split(rawf, **base_kw, **long_kw, **ap)
                 if kind == "raw_lazy":
@@ -745,6 +843,7 @@ def c09_work(task):
 
             for kind in ("bytes", "region", "region_fn", "wav", "wav_path", "wav_lazy", "raw", "raw_lazy", "raw_fmt",
                          "raw_audio_format", "buffer_source", "raw_source", "wave_source", "reader", "reader_wav", "stdin", "stdin:1", "stdin:3",
+                         "WAV", "WAV_lazy", "Wave", "RAW", "RAW_lazy",
                          "stdin:%d,2" % (W * sw * ch - 1)):
                 cov["evaluations"] += 1
                 try:
